@@ -46,7 +46,7 @@ def _worker_supp(job):
         raise RuntimeError('supp imported from %s, expected %s' % (real, repo))
     import supp.project as sp
     from supp.project import Project
-    from supp.assistant import assist
+    from supp.assistant import assist, location
     from supp.evaluator import EvalCtx
     from supp.util import split_pkg, join_pkg
     import logging
@@ -58,6 +58,17 @@ def _worker_supp(job):
             importlib.import_module(deep)
         except ImportError:
             pass
+
+    def make_project(sources):
+        # the way the server builds its project (Server.configure); plain Project if that is not possible
+        try:
+            from supp.server import Server
+            srv = Server(None)
+            srv.configure({'sources': list(sources)})
+            return srv.project
+        except Exception:  # noqa
+            return Project(list(sources))
+    make_project([])
 
     base = job['base']
     suffixes = list(getattr(sp, 'SUFFIXES', None) or __import__('importlib.machinery').machinery.all_suffixes())
@@ -91,7 +102,7 @@ def _worker_supp(job):
         res = {}
         full = t['extra'] + base + t.get('after', [])
         sys.path[:] = full
-        p = Project(list(t['sources']))
+        p = make_project(t['sources'])
         loaded0 = sorted(sys.modules)
         res['loaded'] = loaded0
         gm = []
@@ -130,6 +141,31 @@ def _worker_supp(job):
                 os.chdir(home)
             nm.append(r)
         res['norm'] = nm
+        # from-imports resolved through the real name-resolution path: go-to-definition on a use of the name
+        fr = []
+        locproj = {}
+        for item in t.get('froms', []):
+            fname, cwd = item['file'], item.get('cwd')
+            proj = p
+            del requested[:]
+            try:
+                if cwd:
+                    os.chdir(cwd)
+                    fname = os.path.relpath(fname, cwd)
+                    proj = locproj.get(cwd) or locproj.setdefault(cwd, make_project(t['sources']))
+                locs = location(proj, item['src'], tuple(item['pos']), fname)
+                flat = []
+                for l in locs:
+                    flat.extend(l if isinstance(l, list) else [l])
+                # the import statement itself is reported at its own column; a module at (1, 0)
+                r = ['ok', [d['file'] for d in flat if tuple(d['loc']) == (1, 0)]]
+            except Exception as e:  # noqa
+                r = classify_exc(e)
+            finally:
+                os.chdir(home)
+                drop_fakes()
+            fr.append(r)
+        res['froms'] = fr
         # really import some deep modules of the tree (empty sources), so that sys.modules holds
         # grandchildren of the packages that are listed below
         sys.path[:] = t['sources'] + full
@@ -255,6 +291,21 @@ def _worker_oracle(job):
             else:
                 rel.append(None)
         res['rel'] = rel
+        fr = []
+        for item in t.get('froms', []):
+            f = fresh_find(item['name']) if item['name'] else ['none', '']
+            if f[0] == 'file' and f[1] == item['file']:
+                package = f[4]
+                spec = '.' * item['level'] + '.'.join(item['modc'] + [item['mname']])
+                try:
+                    resolved = importlib.util.resolve_name(spec, package)
+                except ImportError:
+                    fr.append([package, ['ImportError'], ['none', '']])
+                    continue
+                fr.append([package, ['ok', resolved], fresh_find(resolved)])
+            else:
+                fr.append(None)
+        res['froms'] = fr
         ch = []
         sys.path[:] = short        # the listing queries of the supp side run without the interpreter's own path
         importlib.invalidate_caches()
@@ -455,7 +506,8 @@ def gen_tree(rng, idx, ext_sfx):
         after = [roots.pop()]
         if rng.random() < 0.5:
             after.append(rng.choice(roots))
-    t = {'id': 'g%d' % idx, 'entries': ents, 'sources': roots, 'extra': extra, 'after': after}
+    t = {'id': 'g%d' % idx, 'entries': ents, 'sources': roots, 'extra': extra, 'after': after,
+         'ood_tree': bool(ood)}
     fill_queries(rng, t)
     return t
 
@@ -467,6 +519,72 @@ def misspell(rng, name):
     c = rng.choice([c + 'x', c[:-1] or 'q', c.upper(), 'no' + c])
     comps[i] = c
     return '.'.join(comps)
+
+
+def stems_in(ents, d):
+    """module-like stems of the entries directly inside directory d (tree-relative)"""
+    import importlib.machinery as mach
+    sfx = sorted(mach.all_suffixes(), key=len, reverse=True)
+    out = set()
+    pre = d + '/'
+    for rel, k in ents.items():
+        if not rel.startswith(pre) or '/' in rel[len(pre):]:
+            continue
+        nm = rel[len(pre):]
+        if k != 'D':
+            for s in sfx:
+                if nm.endswith(s) and len(nm) > len(s):
+                    nm = nm[:-len(s)]
+                    break
+            else:
+                continue
+        if nm and nm != '__init__' and '.' not in nm and nm != '__pycache__':
+            out.add(nm)
+    return sorted(out)
+
+
+def from_item(rel_file, name, level, modc, mname, cwd, alias=False):
+    head = '.' * level + '.'.join(modc)
+    use = 'alias_' if alias else mname
+    stmt = 'from %s import %s%s' % (head, mname, ' as alias_' if alias else '')
+    return {'file': rel_file, 'name': name, 'level': level, 'modc': list(modc), 'mname': mname, 'cwd': cwd,
+            'src': stmt + '\n' + use + '\n', 'pos': [2, len(use)]}
+
+
+def gen_froms(rng, ents, fl, files, names, cap=26):
+    """`from <dots>[module] import name` statements of every level 1..depth+1 (dots only and with a module
+    part) and absolute ones, in files of the tree; the name is a submodule of the addressed package, of a
+    package one level off, or absent."""
+    out = []
+    for rel_file in fl[:7]:
+        root = rel_file.split('/')[0]
+        P = rel_file.split('/')[1:-1]
+        for level in range(1, len(P) + 2):
+            anc = P[:len(P) - (level - 1)] if level <= len(P) else []
+            here = stems_in(ents, '/'.join([root] + anc))
+            near = set()
+            if anc:
+                near.update(stems_in(ents, '/'.join([root] + anc[:-1])))
+            if level >= 2 and level - 2 <= len(P):
+                near.update(stems_in(ents, '/'.join([root] + P[:len(P) - (level - 2)])))
+            cands = rng.sample(here, min(2, len(here))) + rng.sample(sorted(near), min(1, len(near))) + \
+                (['nosuch'] if rng.random() < 0.3 else [])
+            for mname in cands:
+                cwd = rng.choice([None, None, root, '.'])
+                out.append(from_item(rel_file, files[rel_file], level, [], mname, cwd, alias=rng.random() < 0.15))
+            # with a module part: a sub-package of the addressed package
+            subs = [s for s in here if ents.get('/'.join([root] + anc + [s])) == 'D']
+            if subs and rng.random() < 0.6:
+                s = rng.choice(subs)
+                inner = stems_in(ents, '/'.join([root] + anc + [s])) or ['nosuch']
+                out.append(from_item(rel_file, files[rel_file], level, [s], rng.choice(inner), rng.choice([None, root])))
+    for n in names[:6]:
+        comps = n.split('.')
+        if len(comps) >= 2 and fl:
+            f = rng.choice(fl)
+            out.append(from_item(f, files[f], 0, comps[:-1], comps[-1], None))
+    rng.shuffle(out)
+    return out[:cap]
 
 
 def fill_queries(rng, t, nnames=34, nrel=30, nlists=8, nassist=5):
@@ -497,6 +615,7 @@ def fill_queries(rng, t, nnames=34, nrel=30, nlists=8, nassist=5):
                 rel.append([rel_file, files[rel_file], '.' * level + rest, cwd])
     rng.shuffle(rel)
     t['rel'] = rel[:nrel]
+    t['froms'] = gen_froms(rng, ents, fl, files, pick)
     pk = [n for n in names if any(ents.get(r + '/' + n.replace('.', '/')) == 'D' for r in roots)]
     rng.shuffle(pk)
     t['lists'] = [''] + pk[:nlists] + [rng.choice(names) if names else 'a', 'nosuch', 'a.nosuch']
@@ -571,6 +690,8 @@ def concretise(t, tb):
          'after': [ab(r) for r in t.get('after', [])],
          'names': t['names'], 'lists': t['lists'], 'preload': t.get('preload', []),
          'rel': [[ab(i[0]), i[1], i[2], cw(i)] for i in t['rel']],
+         'froms': [dict(i, file=ab(i['file']), cwd=(None if not i.get('cwd') else (tb if i['cwd'] == '.' else ab(i['cwd']))))
+                   for i in t.get('froms', [])],
          'assist': [dict(a, file=(ab(a['file']) if a.get('file') else None)) for a in t['assist']]}
     return c
 
